@@ -98,3 +98,11 @@ CORPUS += [
     Mut('c13-benign-callable-model-handlers-share-a-helper', 'torchtree/core/model.py', '', "    def handle_model_changed(self, model, obj, index) -> None:\n        self.lp_needs_update = True\n        self.fire_model_changed(self)\n",
         "    def handle_model_changed(self, model, obj, index) -> None:\n        self._invalidate()\n\n    def _invalidate(self) -> None:\n        self.lp_needs_update = True\n        self.fire_model_changed(self)\n", benign=True, mode='text'),
 ]
+CORPUS += [
+    Mut('c13-plate-objects-inserted-at-a-fixed-position', 'torchtree/core/utils.py', 'expand_plates', 'objects.append(clone)', 'objects.append(clone)\nparent.insert(idx, clone)',
+        expect=[('C13.M', 'expand_plates::objects-of-a-plate-keep-the-order-of-its-range')]),
+    Mut('c13-benign-plate-objects-inserted-at-a-moving-position', 'torchtree/core/utils.py', 'expand_plates', 'objects.append(clone)', 'objects.append(clone)\nparent.insert(idx + len(objects), clone)\ndel parent[idx + len(objects)]',
+        benign=True),
+    Mut('c13-factory-full-loses-its-fill-value', 'torchtree/core/parameter.py', '', "            parameter['full'] = kwargs['full']\n            parameter['tensor'] = kwargs['tensor']\n", "            parameter['full'] = kwargs['full']\n",
+        mode='text', expect=[('C13.F', "Parameter::'full'-is-written-together-with-['tensor']")]),
+]
